@@ -109,6 +109,23 @@ def i_normal(F, res):
             if by is None:
                 if any(o.kind == "arg" and o.local == 1 for o in origins) and f.get("impl_trait") == "std::ops::Neg":
                     by = "entry-wise negation of an existing (normal-form) value"
+                elif f.get("impl_trait") == "std::ops::Neg":
+                    # ... written as a chain: `Self(self.0.into_iter().map(|(k, v)| (k, -v)).collect())` - the map stage only negates
+                    chain = mir.provenance(f, du, rv["ops"][0], transparent_extra=("std::iter::Iterator::map", "std::iter::Iterator::collect", "std::iter::IntoIterator::into_iter",
+                                                                                   "std::collections::HashMap::<K, V, S, A>::into_iter", "std::iter::FromIterator::from_iter"))
+                    stages = [t2 for _, t2 in _calls(f) if (t2.get("callee") or "") == "std::iter::Iterator::map"]
+                    only_neg = bool(stages)
+                    for t2 in stages:
+                        for c in t2.get("fnrefs") or ():
+                            cb = F.fns.get(c)
+                            if cb is None:
+                                only_neg = False
+                                continue
+                            if any(st["rv"]["k"] in ("binop", "checked") and st["rv"].get("op") not in ("Eq", "Ne", "Lt", "Le", "Gt", "Ge") for _, _, st in mir.stmts(cb)) or any((t3.get("callee") or "") != "std::ops::Neg::neg" for _, t3 in mir.calls(cb)):
+                                only_neg = False
+                    others = [t2 for _, t2 in _calls(f) if (t2.get("callee") or "").split("::")[-1] not in ("map", "collect", "into_iter", "from_iter")]
+                    if chain and all(o.kind == "arg" and o.local == 1 for o in chain) and only_neg and not others:
+                        by = "entry-wise negation of an existing (normal-form) value (iterator chain whose map stage only negates)"
             # (4) the inserted amount is tested against zero on the way
             if by is None:
                 if _zero_guarded(f, cfg, bi):
